@@ -248,6 +248,8 @@ def ref_eval(e, labels, emacros, vars_=None, depth=0):
         new = {}
         for p, a in zip(params, e[2]):
             new[p] = ref_eval(a, labels, emacros, vars_, depth)
+        if len(e[2]) < len(params):          # every parameter needs an argument, read by the body or not
+            raise EvalError("UndefinedVariable", params[len(e[2])])
         return ref_eval(body, labels, emacros, new, depth + 1)
     a = ref_eval(e[1], labels, emacros, vars_, depth)
     b = ref_eval(e[2], labels, emacros, vars_, depth)
